@@ -49,6 +49,13 @@ I = [
     ['meta', {'metadata': {}}],
     ['meta', {'metadata': {'k': UNSER}}],
     ['meta', {'metadata': {'k': 1}, 'meta_format': 'yaml'}],
+    ['meta', {'metadata': {'k': 1}, 'meta_format': 'js'}],
+    ['meta', {'metadata': {'k': 1}, 'meta_format': ''}],
+    ['meta', {'metadata': {'k': 1}, 'meta_format': 'JSON'}],
+    ['preamble', {'text': 'x', 'line_endings': 'uni'}],
+    ['preamble', {'text': 'x', 'mimetype': 'text/'}],
+    ['diff', {'content': b'x\n', 'diff_type': 'bin'}],
+    ['diff', {'content': b'x\n', 'line_endings': 'do'}],
     ['diff', {'content': 'text'}],
     ['diff', {'content': b''}],
     ['diff', {'content': b'x\n', 'diff_type': 'patch'}],
@@ -354,7 +361,7 @@ def checks():
             'exhaustive', chunks, run_chunk, run_case=run_case,
             rule='all call sequences over the 5 operations with valid '
                  'arguments up to length LV, and all sequences over 10 valid '
-                 '+ 27 invalid-argument variants (wrong types, empty content, '
+                 '+ 34 invalid-argument variants (wrong types, empty content, '
                  'bad option values, unencodable text incl. lone surrogates, '
                  'unknown and non-text codecs) up to length LA; per step: '
                  'accepted iff the section may follow (my table) and the '
